@@ -82,28 +82,198 @@ Qed.
 
 (* ---------------------------------------------------------------- all arguments in one repository *)
 
-Lemma find_git_repo_rest_uniform fuel stat c : forall dirs r,
-  find_git_repo_rest fuel stat c dirs = RepoAt r ->
-  c = RepoAt r /\ forall d, In d dirs -> find_repo_path fuel stat d = RepoAt r.
+(* whatever FindGitRepo answers (other than an error), every argument's own walk answered *)
+Lemma find_git_repo_rest_uniform cwd fuel stat c : forall dirs x,
+  find_git_repo_rest cwd fuel stat c dirs = x -> x <> RepoErr ->
+  c = x /\ forall d, In d dirs -> find_repo_path_abs cwd fuel stat d = x.
 Proof.
-  induction dirs as [|d ds IH]; intros r H; simpl in H.
+  induction dirs as [|d ds IH]; intros x H Hx; simpl in H.
   - split; [exact H | intros d []].
-  - destruct (find_repo_path fuel stat d) as [| |x] eqn:E; destruct c as [| |y]; try discriminate.
-    + destruct (IH r H) as [Hc _]. discriminate.
-    + destruct (str_eqb_spec x y) as [->|]; [|discriminate].
-      destruct (IH r H) as [Hc Hall]. split; [exact Hc|].
-      injection Hc as ->. intros d' [<-|Hd']; [exact E | apply Hall; exact Hd'].
+  - destruct (find_repo_path_abs cwd fuel stat d) as [| |y] eqn:E; destruct c as [| |z];
+      try (exfalso; apply Hx; symmetry; exact H).
+    + destruct (IH x H Hx) as [Hc Hall]. split; [exact Hc|].
+      intros d' [<-|Hd']; [rewrite E; exact Hc | apply Hall; exact Hd'].
+    + destruct (str_eqb_spec y z) as [->|]; [|exfalso; apply Hx; symmetry; exact H].
+      destruct (IH x H Hx) as [Hc Hall]. split; [exact Hc|].
+      intros d' [<-|Hd']; [rewrite E; exact Hc | apply Hall; exact Hd'].
 Qed.
 
-Lemma find_git_repo_uniform fuel stat dirs r :
-  find_git_repo fuel stat dirs = RepoAt r ->
-  forall d, In d dirs -> find_repo_path fuel stat d = RepoAt r.
+Lemma find_git_repo_uniform_gen cwd fuel stat dirs x :
+  find_git_repo cwd fuel stat dirs = x -> x <> RepoErr ->
+  forall d, In d dirs -> find_repo_path_abs cwd fuel stat d = x.
 Proof.
-  destruct dirs as [|d0 ds]; simpl; [discriminate|].
-  destruct (find_repo_path fuel stat d0) as [| |x] eqn:E; [discriminate| |]; intros H.
-  - apply find_git_repo_rest_uniform in H as [Hc _]. discriminate.
-  - apply find_git_repo_rest_uniform in H as [Hc Hall]. injection Hc as ->.
-    intros d [<-|Hd]; [exact E | apply Hall; exact Hd].
+  destruct dirs as [|d0 ds]; simpl; [intros <- Hx; exfalso; apply Hx; reflexivity|].
+  destruct (find_repo_path_abs cwd fuel stat d0) as [| |y] eqn:E; intros H Hx;
+    [exfalso; apply Hx; symmetry; exact H | |];
+    apply find_git_repo_rest_uniform in H as [Hc Hall]; try exact Hx;
+    (intros d [<-|Hd]; [rewrite E; exact Hc | apply Hall; exact Hd]).
+Qed.
+
+Lemma find_git_repo_uniform cwd fuel stat dirs r :
+  find_git_repo cwd fuel stat dirs = RepoAt r ->
+  forall d, In d dirs -> find_repo_path_abs cwd fuel stat d = RepoAt r.
+Proof. intros H. apply find_git_repo_uniform_gen; [exact H | discriminate]. Qed.
+
+(* ---------------------------------------------------------------- what the walk finds, component-wise *)
+
+Lemma regular_dotgit : regular s_dotgit.
+Proof. repeat split; try discriminate. intros [H|[H|[H|[H|[]]]]]; discriminate. Qed.
+
+Lemma cpath_inj a b : Forall regular a -> Forall regular b -> cpath a = cpath b -> a = b.
+Proof.
+  intros Ha Hb H. rewrite <- (comps_of_cpath a Ha), <- (comps_of_cpath b Hb), H. reflexivity.
+Qed.
+
+Lemma cpath_snoc_neq ds x :
+  Forall regular ds -> regular x -> str_eqb (cpath ds) (cpath (ds ++ [x])) = false.
+Proof.
+  intros Hds Hx. destruct (str_eqb_spec (cpath ds) (cpath (ds ++ [x]))) as [E|]; [|reflexivity].
+  apply cpath_inj in E; [| exact Hds | apply Forall_app; split; [exact Hds | constructor; [exact Hx | constructor]]].
+  apply (f_equal (@length str)) in E. rewrite app_length in E. simpl in E. lia.
+Qed.
+
+Lemma dir_cpath_nil : dir (cpath []) = cpath [].
+Proof. reflexivity. Qed.
+
+Lemma snoc_split_cases {A} (rest : list A) x m m' :
+  rest ++ [x] = m ++ m' -> (m' = [] /\ m = rest ++ [x]) \/ (exists m'', m' = m'' ++ [x] /\ rest = m ++ m'').
+Proof.
+  intros H. destruct m' as [|y m'0] using rev_ind.
+  - left. rewrite app_nil_r in H. split; [reflexivity | symmetry; exact H].
+  - right. clear IHm'0. rewrite app_assoc in H. apply app_inj_tail in H as [H1 H2]. subst y.
+    exists m'0. split; [reflexivity | exact H1].
+Qed.
+
+(* findRepoPath on a clean absolute path answers with the CLOSEST enclosing directory that holds
+   a .git directory: a component-wise ancestor (or the directory itself) *)
+Lemma find_repo_path_cpath_at stat : forall fuel ds r,
+  Forall regular ds ->
+  find_repo_path fuel stat (cpath ds) = RepoAt r ->
+  exists rs, r = cpath rs /\ Forall regular rs /\ in_work_tree stat rs ds.
+Proof.
+  induction fuel as [|fuel IH]; intros ds r Hds H; [discriminate|].
+  cbn [find_repo_path] in H.
+  rewrite (pjoin_cpath_comp ds s_dotgit Hds regular_dotgit) in H.
+  destruct (stat (cpath (ds ++ [s_dotgit]))) eqn:Est; try discriminate.
+  - injection H as <-. exists ds. split; [reflexivity|]. split; [exact Hds|].
+    exists []. split; [symmetry; apply app_nil_r|]. split; [exact Est|].
+    intros m m' Hm Hne. destruct m; [contradiction | discriminate].
+  - destruct ds as [|x ds0 _] using rev_ind.
+    + rewrite dir_cpath_nil in H. rewrite str_eqb_refl in H. discriminate.
+    + apply Forall_app in Hds as [Hds0 Hx]. inversion Hx as [|? ? Hx' _]; subst.
+      rewrite (dir_cpath_snoc ds0 x Hds0 Hx') in H.
+      rewrite (cpath_snoc_neq ds0 x Hds0 Hx') in H.
+      destruct (IH ds0 r Hds0 H) as [rs [Hr [Hrs [rest [Hsplit [Hgit Hclose]]]]]].
+      exists rs. split; [exact Hr|]. split; [exact Hrs|].
+      exists (rest ++ [x]). split; [rewrite Hsplit, app_assoc; reflexivity|]. split; [exact Hgit|].
+      intros m m' Hm Hne. apply snoc_split_cases in Hm as [[_ ->]|[m'' [_ Hrest]]].
+      * rewrite app_assoc, <- Hsplit. exact Est.
+      * apply (Hclose m m'' Hrest Hne).
+Qed.
+
+(* ... and answers "none" only if no directory from the root down holds a .git entry *)
+Lemma find_repo_path_cpath_none stat : forall fuel ds,
+  Forall regular ds ->
+  find_repo_path fuel stat (cpath ds) = RepoNone -> in_no_work_tree stat ds.
+Proof.
+  induction fuel as [|fuel IH]; intros ds Hds H; [discriminate|].
+  cbn [find_repo_path] in H.
+  rewrite (pjoin_cpath_comp ds s_dotgit Hds regular_dotgit) in H.
+  destruct (stat (cpath (ds ++ [s_dotgit]))) eqn:Est; try discriminate.
+  destruct ds as [|x ds0 _] using rev_ind.
+  - intros m m' Hm. symmetry in Hm. apply app_eq_nil in Hm as [-> _]. exact Est.
+  - apply Forall_app in Hds as [Hds0 Hx]. inversion Hx as [|? ? Hx' _]; subst.
+    rewrite (dir_cpath_snoc ds0 x Hds0 Hx') in H.
+    rewrite (cpath_snoc_neq ds0 x Hds0 Hx') in H.
+    pose proof (IH ds0 Hds0 H) as Hnone.
+    intros m m' Hm. apply snoc_split_cases in Hm as [[_ ->]|[m'' [_ Hrest]]].
+    + exact Est.
+    + apply (Hnone m m'' Hrest).
+Qed.
+
+(* FindGitRepo on the ARGUMENT list: a repository is reported only if every argument lies in it,
+   component-wise, and it is the closest work tree around every one of them *)
+Lemma same_repository cwd fuel stat dirs r :
+  is_rooted cwd = true ->
+  find_git_repo cwd fuel stat dirs = RepoAt r ->
+  exists rs, r = cpath rs /\ Forall regular rs /\
+    forall d, In d dirs ->
+      exists ds, fp_abs cwd d = cpath ds /\ Forall regular ds /\ in_work_tree stat rs ds.
+Proof.
+  intros Hcwd H. pose proof (find_git_repo_uniform cwd fuel stat dirs r H) as Hall.
+  assert (Hone : forall d, In d dirs ->
+            exists ds rs, fp_abs cwd d = cpath ds /\ Forall regular ds /\ r = cpath rs /\ Forall regular rs
+                          /\ in_work_tree stat rs ds).
+  { intros d Hd. destruct (fp_abs_cpath cwd d Hcwd) as [ds [Hds Habs]].
+    pose proof (Hall d Hd) as Hw. unfold find_repo_path_abs in Hw. rewrite Habs in Hw.
+    destruct (find_repo_path_cpath_at stat fuel ds r Hds Hw) as [rs [Hr [Hrs Hin]]].
+    exists ds, rs. repeat split; assumption. }
+  destruct dirs as [|d0 ds0]; [discriminate|].
+  destruct (Hone d0 (or_introl eq_refl)) as [_ [rs0 [_ [_ [Hr0 [Hrs0 _]]]]]].
+  exists rs0. split; [exact Hr0|]. split; [exact Hrs0|].
+  intros d Hd. destruct (Hone d Hd) as [ds [rs [Habs [Hds [Hr [Hrs Hin]]]]]].
+  exists ds. split; [exact Habs|]. split; [exact Hds|].
+  assert (rs = rs0) as -> by (apply cpath_inj; [exact Hrs | exact Hrs0 | rewrite <- Hr, <- Hr0; reflexivity]).
+  exact Hin.
+Qed.
+
+(* "no repository" is answered only if every argument lies in no work tree at all *)
+Lemma no_repository cwd fuel stat dirs :
+  is_rooted cwd = true ->
+  find_git_repo cwd fuel stat dirs = RepoNone ->
+  forall d, In d dirs ->
+    exists ds, fp_abs cwd d = cpath ds /\ Forall regular ds /\ in_no_work_tree stat ds.
+Proof.
+  intros Hcwd H d Hd.
+  pose proof (find_git_repo_uniform_gen cwd fuel stat dirs RepoNone H ltac:(discriminate) d Hd) as Hw.
+  destruct (fp_abs_cpath cwd d Hcwd) as [ds [Hds Habs]].
+  unfold find_repo_path_abs in Hw. rewrite Habs in Hw.
+  exists ds. split; [exact Habs|]. split; [exact Hds|].
+  exact (find_repo_path_cpath_none stat fuel ds Hds Hw).
+Qed.
+
+(* ---- three ways of asking that do NOT give this ---- *)
+Definition only_git_at (g : str) (p : str) : stat_result := if str_eqb p g then StDir else StNotExist.
+Definition p_w_pol : str := [47;119;47;112;111;108].                                 (* /w/pol *)
+Definition p_w_pol_git : str := p_w_pol ++ [47;46;103;105;116].                      (* /w/pol/.git *)
+Definition p_w_pol_draft : str := p_w_pol ++ [45;100;114;97;102;116].                (* /w/pol-draft *)
+
+(* (1) "inside" decided by a string prefix: /w/pol-draft starts with /w/pol (seeded change C14-4) *)
+Lemma same_repository_string_prefix_refuted :
+  exists cwd stat dirs d r,
+    In d dirs
+    /\ find_git_repo_strprefix cwd 8 stat dirs = RepoAt r
+    /\ find_repo_path_abs cwd 8 stat d = RepoNone
+    /\ find_git_repo cwd 8 stat dirs = RepoErr.
+Proof.
+  exists [47], (only_git_at p_w_pol_git), [p_w_pol; p_w_pol_draft], p_w_pol_draft, p_w_pol.
+  split; [right; left; reflexivity|]. repeat split; vm_compute; reflexivity.
+Qed.
+
+(* (2) asking about a list that does not hold every argument (the project roots instead of the
+   arguments: config.GetPotentialRoots answers with the bundle roots alone as soon as one
+   argument has one; seeded change C14-3) *)
+Lemma same_repository_other_list_refuted :
+  exists cwd stat args roots d r,
+    In d args /\ (forall x, In x roots -> In x args)
+    /\ find_git_repo cwd 8 stat roots = RepoAt r
+    /\ find_repo_path_abs cwd 8 stat d = RepoNone
+    /\ find_git_repo cwd 8 stat args = RepoErr.
+Proof.
+  exists [47], (only_git_at p_w_pol_git), [p_w_pol; p_w_pol_draft], [p_w_pol], p_w_pol_draft, p_w_pol.
+  split; [right; left; reflexivity|]. split; [intros x [<-|[]]; left; reflexivity|].
+  repeat split; vm_compute; reflexivity.
+Qed.
+
+(* (3) the walk on the spelling (repaired in /repo): from /w/pol, "../pol-draft" is followed by ".."
+   and ".", where the repository of the working directory is found *)
+Lemma find_git_repo_lexical_refuted :
+  exists cwd stat d,
+    find_git_repo_lexical 8 (fun p => stat (fp_abs cwd p)) [d] = RepoAt [DOT]
+    /\ find_git_repo cwd 8 stat [d] = RepoNone.
+Proof.
+  exists p_w_pol, (only_git_at p_w_pol_git), ([46;46;47] ++ [112;111;108;45;100;114;97;102;116]).
+  split; vm_compute; reflexivity.
 Qed.
 
 (* ---------------------------------------------------------------- the pinned gate *)
@@ -141,7 +311,7 @@ Lemma find_git_repo_pinned_refuted :
   exists stat dirs d,
     In d dirs /\ find_repo_path 8 stat d = RepoNone
     /\ find_git_repo_pinned 8 stat dirs = RepoAt [47;97]
-    /\ find_git_repo 8 stat dirs = RepoErr.
+    /\ find_git_repo [47] 8 stat dirs = RepoErr.
 Proof.
   exists two_stat, [[47;98]; [47;97]], [47;98].
   split; [left; reflexivity|]. repeat split; vm_compute; reflexivity.
